@@ -539,3 +539,82 @@ def judge_timeout_ledger(res: dict) -> list:
         if t != want:
             bad.append((op, t, want))
     return bad
+
+
+# ---------------------------------------------------------------------------------------------------------------
+# timeout ledger of the real asynchronous back-ends (C16): the deadline handed to anyio.fail_after / trio.fail_after
+# ---------------------------------------------------------------------------------------------------------------
+ASYNC_LEDGER_CONFIGS = {
+    "distinct": {"connect": 1.1, "read": 2.2, "write": 3.3, "pool": 4.4},
+    "absent": {},
+    "read-zero": {"connect": 1.1, "read": 0, "write": 3.3},
+    "write-zero": {"connect": 1.1, "read": 2.2, "write": 0},
+    "connect-zero": {"connect": 0, "read": 2.2, "write": 3.3},
+}
+ASYNC_LEDGER_EXPECT = {"distinct": None, "absent": None, "read-zero": httpcore.ReadTimeout, "write-zero": httpcore.WriteTimeout,
+                       "connect-zero": httpcore.ConnectTimeout}
+_OP_KEY = {"read": "read", "write": "write", "connect_tcp": "connect", "connect_unix_socket": "connect", "start_tls": "connect"}
+
+
+def async_timeout_ledger(backend: str, cfg_name: str, tls: bool) -> dict:
+    """One request through the real AnyIOBackend (on asyncio) or TrioBackend over loopback; records (operation, deadline
+    argument) of every fail_after() the back-end module enters."""
+    import sys as _sys
+    import anyio as _anyio
+    import trio as _trio
+    import httpcore._backends.anyio as am
+    import httpcore._backends.trio as tm
+    ledger: list = []
+
+    class Shim:
+        def __init__(self, real) -> None:
+            self._real = real
+
+        def __getattr__(self, name):
+            return getattr(self._real, name)
+
+        def fail_after(self, t, *a, **k):
+            ledger.append((_sys._getframe(1).f_code.co_name, t))
+            return self._real.fail_after(t, *a, **k)
+
+    cfg = dict(ASYNC_LEDGER_CONFIGS[cfg_name])
+    srv = Server("tls-ok" if tls else "plain-ok")
+    res = {"backend": backend, "config": cfg_name, "tls": tls, "ledger": ledger, "timeouts": cfg}
+    saved = (am.anyio, tm.trio)
+    am.anyio, tm.trio = Shim(_anyio), Shim(_trio)
+    try:
+        async def main():
+            be = httpcore.AnyIOBackend() if backend == "anyio" else httpcore.TrioBackend()
+            pool = httpcore.AsyncConnectionPool(ssl_context=client_ctx("tls-ok") if tls else None, network_backend=be)
+            try:
+                r = await pool.request("POST", f"{'https' if tls else 'http'}://localhost:{srv.port}/", content=b"x" * 2000,
+                                       extensions={"timeout": cfg})
+                res["status"] = r.status
+            except Exception as exc:  # noqa
+                res["exc"] = exc
+            finally:
+                await pool.aclose()
+        if backend == "anyio":
+            _anyio.run(main)
+        else:
+            _trio.run(main)
+    finally:
+        am.anyio, tm.trio = saved
+        srv.close()
+    return res
+
+
+def judge_async_ledger(res: dict) -> list:
+    inf = float("inf")
+    bad = []
+    for fn, t in res["ledger"]:
+        key = _OP_KEY.get(fn)
+        if key is None:
+            bad.append((fn, t, "unknown operation"))
+            continue
+        want = res["timeouts"].get(key)
+        if res["backend"] == "trio" and want is None:
+            want = inf
+        if t != want or (want == 0 and t is None):
+            bad.append((fn, t, want))
+    return bad
